@@ -43,6 +43,12 @@ CHECKS = {
         text='All words of length <= 4 (quick) / 5 (thorough) over a 7-segment pool with length ratios 1e-3:1:1e3 and a zero-length line, every joint exactly coincident / 1 ulp apart / far apart, plus k-equal-lines families; every T of the boundary alphabet is mapped by the real point/T2t/t2T and compared with the reference intervals. Exhaustive over the stated finite space; no all-inputs claim.',
         note='Trusted: segment length() (decided by C06) for the reference fractions. Tolerances are computed from the representation (eps/fraction), not guessed.',
         design='4/C05'),
+    'C06': dict(
+        level='exploration',
+        technique='bounded-exhaustive enumeration of shape library x rotations x scales x all sub-interval pairs x {scipy, fallback}, against an independently computed rigorous length bracket and an independent quadrature',
+        text='Every (shape, rotation, scale, t0<=t1, configuration) of the stated grid is evaluated by the real length() on a fresh object and must lie in the chord/control-polygon bracket of a 4096-piece subdivision, agree with independent Gauss-Legendre quadrature, be finite, non-negative and additive. The scipy seam (svgpathtools.path._quad_available) is toggled by the explorer. Exhaustive over the grid; no all-inputs claim (length is not polynomial).',
+        note='Trusted: mc/refgeom.py bracket and quadrature; independent F.6.5 arc parameters. Fallback configuration runs at scales <= 2^-6 (quick) / <= 1 (thorough) under a point-evaluation budget; capped cases are reported, not counted as explored.',
+        design='4/C06'),
 }
 
 NOT_YET = {}
